@@ -232,3 +232,9 @@ Definition rsv_get (v : rsv) (index : N) : option N :=
   | None => Some 0
   | Some i => nth_error (rvals v) i
   end.
+
+(* ---------------------------------------------------------------- range requests *)
+(* tensor_chain/src/message_validation.rs validate_block_request: the order test (when the source performs it)
+   and the limit on the number of requested blocks; `count` is the source's own arithmetic on u64 *)
+Definition validate_block_req (order_checked : bool) (count : N -> N -> N) (maxb from_ to : N) : bool :=
+  negb (order_checked && N.ltb to from_) && N.leb (count from_ to) maxb.
